@@ -286,6 +286,35 @@ def r11_5(ctx):
         ctx.check(R, ok, 'variant', 'From<io::Error> builds %s instead of Error::Io(err)' % fmt(v)[:80], fn=f)
 
 
+BUFFERING = ('std::io::BufWriter::<W>::new', 'std::io::BufWriter::<W>::with_capacity', 'std::io::LineWriter::<W>::new', 'std::io::LineWriter::<W>::with_capacity')
+
+
+def buffering_adapters(crate, fns):
+    """[(fn, terminator, flushed?)] for every buffering adapter built in the given functions"""
+    out = []
+    for f in fns:
+        for bid, t in f.calls():
+            c = f.callee(t) or ''
+            if c in BUFFERING:
+                flushed = any((f.callee(t2) or '').endswith(('BufWriter::<W>::into_inner', 'LineWriter::<W>::into_inner')) or f.callee_decl(t2) == SM.IO_FLUSH for _, t2 in f.calls())
+                out.append((f, t, flushed))
+    return out
+
+
+def r11_6(ctx, scope):
+    R = ctx.rule('R11.6', 'no drop-flushing adapter around the sink: a BufWriter / LineWriter that is dropped writes its pending bytes and DISCARDS the error', floor=1)
+    lib = ctx.lib
+    for f, t, flushed in buffering_adapters(lib, [f for f in lib.fn_list if not f.from_expansion]):
+        if flushed:
+            ctx.undecided(R, 'adapter:' + f.path, 'a buffering adapter is built and explicitly flushed / unwrapped here; whether every path does so before it is dropped is not decided', fn=f, at=t.get('span'))
+        else:
+            ctx.violation(R, 'adapter:' + f.path, 'a buffering adapter (%s) is put around the writer and never flushed or unwrapped: its Drop performs the outstanding writes and swallows their errors, so the build reports success with bytes missing' % (f.callee(t).split('::<')[0]), fn=f, at=t.get('span'))
+    ctx.check(R, True, 'scan-complete', '', detail='%d library functions scanned for BufWriter / LineWriter construction' % len(lib.fn_list))
+    fx = ctx.fixture
+    hit = [f.path for f, t, fl in buffering_adapters(fx, fx.fn_list) if not fl]
+    ctx.check(R, 'ctl_bufwriter_drop' in hit, 'control-bufwriter', 'the rule no longer fires on the fixture\'s unflushed BufWriter: checker broken', kind='violation', detail=hit)
+
+
 def run(ctx):
     lib = ctx.lib
     A = Anchors(lib)
@@ -321,3 +350,4 @@ def run(ctx):
         if s['rule'] == 'R07.2':
             s['rule'] = 'R11.4'
     ctx.step(r11_5, ctx)
+    ctx.step(r11_6, ctx, scope)
